@@ -28,10 +28,11 @@ SPEC = {
         "classify transcribes the test order of CheckKnownMessage) and of the harness (ops sflist/fplist); the generators do not declare "
         "one PGN in lists of both kinds (the documented API does not say which wins)",
         "node in N2km_ListenOnly, forwarding disabled: a delivered system message causes no further action",
-        "oracle slot budget is time-aware: an unfinished message whose first frame is more than 100 ms old (generator clock) does not "
-        "count against the slot count - the oldest one must give way to a new message (checked at clock values 0, 2^31+-k, across 2^32; "
-        "exactly 100 ms, equally old candidates and ages near 2^31 ms are not demanded); the Lean completeness theorem does not cover "
-        "recycling (its hypothesis Spec.Fits excludes it), the recycling path is tied to the model by the correspondence run only",
+        "oracle: the reference reassembler is the pure statement and decides what MAY be delivered; what MUST be delivered is decided per "
+        "message independently of the receiver's slot policy: placed (others + 1 fit into the slots, or fewer than N others are younger "
+        "than 100 ms, +-1 ms margin, no age near 2^31 ms) and not at risk (no other message needed a place, when not everything fitted, "
+        "while this one was >= 99 ms old); the Lean completeness theorem does not cover recycling (Spec.Fits excludes it), the recycling "
+        "path is tied to the model by the correspondence run only",
         "exact delivery (C02_refines_spec) is claimed when the unfinished messages incl. the new one belong to at most N "
         "(PGN, source) pairs at every first/single frame (Spec.Fits); beyond that only C02_no_corruption (as the property asks)",
     ],
